@@ -21,12 +21,17 @@ go test $RACE $TAGS -count=1 -timeout 120s -run 'Demo|demo|Seeded|C[0-9][0-9]' .
 rm -f /repo/zz_demo_test.go
 go test -count=1 ./... > /tmp/es.$$.suite 2>&1; suite=$?
 res=""
+# the checks below run against the CHANGED tree: what they write (evidence, replay files) must not stay in /verif
+ls /verif/replay > /tmp/es.$$.replaylist
 for P in "$@"; do
+  cp /verif/evidence/$P.json /tmp/es.$$.ev.$P 2>/dev/null
   (cd /verif && ./check "$P" quick > /tmp/es.$$.$P 2>&1); rc=$?
   nv=$(grep -c '^VIOLATION' /tmp/es.$$.$P)
   first=$(grep -A1 '^VIOLATION' /tmp/es.$$.$P | grep 'case=' | head -1 | sed 's/^ *//' | cut -c1-140)
   res="$res$P:exit=$rc,violation_lines=$nv,first=[$first];"
+  if [ -f /tmp/es.$$.ev.$P ]; then cp /tmp/es.$$.ev.$P /verif/evidence/$P.json; else rm -f /verif/evidence/$P.json; fi
 done
+ls /verif/replay | comm -13 /tmp/es.$$.replaylist - | (cd /verif/replay && xargs -r rm -f)
 git -C /repo checkout -- . 
 echo "$ID build=$b1/$b2 suite_with_change=$suite demo_without=$clean demo_with=$mut :: $res"
 python3 - "$D/meta.json" "$b1" "$b2" "$suite" "$clean" "$mut" "$res" <<'PY'
